@@ -458,6 +458,10 @@ def api_calls(ctx):
         fit_call("DataArray", flt, expect, X, "time", n_modes=nm)
     for sv, expect in (("auto", "result"), ("full", "result"), ("randomized", "result"), ("arpack", "error"), ("", "error"), ("Full", "error")):
         fit_call("DataArray", ("valid:solver=%r" if expect == "result" else "solver=%r") % sv, expect, X, "time", solver=sv)
+    # an unknown solver name is refused whatever the number of modes (also when every mode is asked for and no solver has a choice to make)
+    for sv in ("arpack", "randomised", ""):
+        fit_call("DataArray", "solver=%r:n_modes=rank" % sv, "error", X, "time", solver=sv, n_modes=rank)
+        fit_call("DataArray", "solver=%r:n_modes=1" % sv, "error", X, "time", solver=sv, n_modes=1)
     # more modes than the rank on every solver path (exact, randomized, and the default policy on data with >= 500 columns)
     for sv in ("full", "randomized", "auto"):
         fit_call("DataArray", "n_modes=%d > rank:solver=%r" % (rank + 1, sv), "error", X, "time", n_modes=rank + 1, solver=sv)
@@ -548,6 +552,14 @@ def api_calls(ctx):
         xfit("valid", "result", X, Y)
         xfit("mismatched-sample-count", "error", X, Y.isel(time=slice(0, 6)))
         xfit("mismatched-sample-count:X-shorter", "error", X.isel(time=slice(0, 5)), Y)
+        # one field has a surplus sample that is entirely missing: still two fields with different sample counts (after the missing sample is
+        # dropped the counts agree by accident and the rows would be paired one step out)
+        Ysur = xr.concat([Y, Y.isel(time=[3]).assign_coords(time=[int(Y.time.values.max()) + 1])], dim="time").copy()
+        Ysur.values[2] = np.nan
+        xfit("mismatched-sample-count:surplus-sample-entirely-missing", "error", X, Ysur)
+        Xsur = xr.concat([X, X.isel(time=[3]).assign_coords(time=[int(X.time.values.max()) + 1])], dim="time").copy()
+        Xsur.values[-1] = np.nan
+        xfit("mismatched-sample-count:surplus-sample-entirely-missing:X", "error", Xsur, Y)
         xfit("wrong-type:numpy-X", "error", X.values, Y)
         xfit("wrong-type:None-Y", "error", X, None)
         xfit("unknown-sample-dim", "error", X, Y, dim="nope")
@@ -562,6 +574,8 @@ def api_calls(ctx):
         xfit("n_pca_modes=0", "error", X, Y, npca=0)
         xfit("n_pca_modes='few'", "error", X, Y, npca="few")
         xfit("solver='arpack'", "error", X, Y, solver="arpack")
+        xfit("solver='arpack':n_modes=4", "error", X, Y, solver="arpack", n_modes=4)
+        xfit("solver='randomised':n_modes=4", "error", X, Y, solver="randomised", n_modes=4)
         # constructor
         if cname == "CPCCA":
             def ctor(fault, expect, lens=(), fn=("feature1", "feature2"), malpha=(0.2, 0.2), **kw):
